@@ -8,13 +8,12 @@ rules={}
 for l in out.splitlines():
     p=l.split()
     built.add(p[0]); rules[p[0]]=p[1:]
-NA={
- "C01":"convergence of the merge under reordering/regrouping/repetition is a statement about runtime timestamps and maps; deciding it needs evaluation of the merge functions, which is outside static analysis (DESIGN 5/C01)",
- "C09":"whether a deleted node object is still referenced by a retained version depends on content-hash sharing across the history (runtime values); the only structural fact, commit-before-delete, is decided under C04",
- "C10":"strict vs non-strict cutoff comparisons on runtime timestamps; a rule 'the operator here is <' would be a frozen source fragment, not an analysis",
- "C17":"kv last-write/tombstone/diff/history semantics over all histories are runtime-value properties",
-}
+NA={}
 TEXT={
+ "C01":("structural conditions that order/grouping independence of the merge needs (not convergence itself): the kv-level join is a comparison-only function whose decision table, extracted over the finite order domain, is the documented symmetric rule; the tree merge inserts the join for every differing key; a version counts as merged iff it was; the row merge is always expressed relative to the later entry's time and never pairs one side's time with the other side's value; the custom-merge wrapper takes value and metadata from the callback","decision-table extraction by abstract interpretation over a finite order domain (E8) + SSA value-flow / pairing rules"),
+ "C09":("necessary conditions of 'vacuum removes only what no retained version needs': nodes are collected for exactly the versions whose version objects are deleted, per retired version against each of its own successors and only for links the successor dropped; links of the retained tree are subtracted; history is deleted from the just-committed handle after it became live; closed set of DELETE sites","SSA loop/range identity and value-flow rules (E6/E2), who-may-call tables"),
+ "C10":("the single cutoff given to s3db_vacuum reaches, unchanged, the row-side test, the tombstone purge and the version-graph walk; what is reclaimed is computed from the just-committed version graph; vacuum's own tombstones are purged before it commits","SSA value-identity rules (E6)"),
+ "C17":("the kv join LastWriteWins/firstTombstoneWins is comparison-only and its extracted decision table equals the documented rule (tombstone beats value, earliest tombstone wins, later modification wins) in all 28 order worlds; local writes and tree merges store that join; TraceHistory bounds each deeper level by the time just reported; Diff reports only unequal visible values","decision-table extraction by abstract interpretation over a finite order domain (E8) + SSA rules"),
  "C02":("necessary plumbing of the documented conflict rule, on all paths: one statement time taken from the connection and used for Set and for the row merge, every assigned column recorded, deltas always merged with the stored row","SSA value-identity and path rules (E6/E2)"),
  "C03":("request order and bookkeeping that every interleaving relies on, decided on all control-flow paths: PUT of the new version before any retirement, copy to merged/ before DELETE from current/ of the same name, a version recorded as merged on exactly the iterations that merged it, lookup order current/ then merged/ when skipping, closed set of DELETE sites","SSA dominance / must-pass-through rules with loop-safe edge dominance, phi-edge classification, who-may-call tables"),
  "C04":("crash atomicity as an ordering argument around a single-PUT commit point: node flush before the version PUT, content-derived name bound to the stored bytes, retirement only after the PUT, storage commit only in xSync, vacuum deletes only after its commit","SSA dominance rules + backward dependence slice + call-graph effects"),
